@@ -109,6 +109,8 @@ type TypeSpec struct {
 	GuardedBy  map[string]string // field -> mutex field
 	Monitors   map[string][]*Clause
 	Invariants []*Clause
+	Writers    map[string][]string // field -> functions allowed to write it
+	Properties []string
 }
 
 type Lemma struct {
@@ -140,7 +142,7 @@ var clauseKeywords = map[string]bool{
 	"nowrap": true, "concurrent": true, "deterministic": true, "ghost": true, "spec": true,
 	"axiom": true, "lemma": true, "const-invariant": true, "type": true, "guarded_by": true,
 	"monitor": true, "invariant": true, "cover": true, "trusted": true, "opt": true, "assert": true, "binds": true,
-	"havoc-calls": true, "end": true, "recv": true, "recv-from": true, "sort-less": true,
+	"havoc-calls": true, "end": true, "recv": true, "recv-from": true, "sort-less": true, "writers": true,
 }
 
 func parseContractFile(path, pkgPath string) (*ContractFile, error) {
@@ -229,6 +231,8 @@ func parseContractFile(path, pkgPath string) (*ContractFile, error) {
 			ids := strings.Fields(strings.ReplaceAll(rest, ",", " "))
 			if curLemma != nil {
 				curLemma.Properties = append(curLemma.Properties, ids...)
+			} else if curType != nil {
+				curType.Properties = append(curType.Properties, ids...)
 			} else if cur != nil {
 				cur.Properties = append(cur.Properties, ids...)
 			} else {
@@ -453,6 +457,19 @@ func parseContractFile(path, pkgPath string) (*ContractFile, error) {
 			for _, f := range fs[1:] {
 				curType.GuardedBy[f] = fs[0]
 			}
+		case "writers":
+			// writers <field> : f1 f2 ...
+			if curType == nil {
+				return nil, fail(l, "writers outside type block")
+			}
+			k := strings.Index(rest, ":")
+			if k < 0 {
+				return nil, fail(l, "writers <field> : <functions>")
+			}
+			if curType.Writers == nil {
+				curType.Writers = map[string][]string{}
+			}
+			curType.Writers[strings.TrimSpace(rest[:k])] = strings.Fields(strings.ReplaceAll(rest[k+1:], ",", " "))
 		case "sort-less":
 			if curType == nil {
 				return nil, fail(l, "sort-less outside type block")
